@@ -306,6 +306,18 @@ func (i *interpreter) errorsIs(err, target iface) bool {
 	return false
 }
 
+func init() {
+	// (syscall.Errno).Error indexes a string table by the errno; with a symbolic errno (fault
+	// injection) the text is irrelevant - it only ever reaches log messages
+	externals["(syscall.Errno).Error"] = func(fr *frame, args []value) value {
+		if _, ok := args[0].(*Term); ok {
+			return "errno (symbolic)"
+		}
+		fr2 := &frame{i: fr.i, caller: fr.caller, fn: fr.fn}
+		return runBody(fr2, args)
+	}
+}
+
 func extErrorsIs(fr *frame, args []value) value {
 	return fr.i.errorsIs(args[0].(iface), args[1].(iface))
 }
